@@ -384,23 +384,38 @@ def r17_3(run):
     ps = f.params()
     _sh("net" in ps, "element_junction_tuples has a net parameter")
     r = ANF(ix, f, consts={"net": None}).run()
-    ups = [c for c in r.calls() if c.fn[0] == "attr" and c.fn[2] == "update" and c.loops and c.args]
+    ups = [c for c in r.calls() if c.fn[0] == "attr" and c.fn[2] == "update" and c.args]
+    from ..arrnf import subst as _subst
 
-    def filt(lid, clsname):
-        it = r.loops[lid]["iter"]
+    def forms(c):
+        """(items with the element variables replaced by ("V", k), iterable term) of a `set.update` that adds entries per element:
+        inside a loop over the elements, or with a generator / list comprehension over them"""
+        a0 = c.args[0]
+        if c.loops and a0[0] in ("list", "tuple", "set"):
+            lid = c.loops[-1]
+            m_ = {key(("loop", lid, 0)): ("V", 0), key(("loop", lid, 1)): ("V", 1)}
+            return [_subst(i, m_) for i in a0[1]], r.loops[lid]["iter"]
+        if a0[0] == "comp" and len(a0[3]) == 1 and not a0[3][0][2]:
+            bv = a0[3][0][0]
+            m_ = {key(bv): ("V", 0), key(bv + (0,)): ("V", 0), key(bv + (1,)): ("V", 1)}
+            elt = _subst(a0[2], m_)
+            return [elt], a0[3][0][1]
+        return None, None
+
+    def filt(it, clsname):
         return any(x[0] == "call" and x[1] == ("x", "builtins.issubclass") and len(x[2]) == 2 and x[2][1][0] == "f"
                    and x[2][1][1].endswith("." + clsname) for x in walk(it))
     br_ok = nd_ok = False
     for c in ups:
-        lid = c.loops[-1]
-        a0 = c.args[0]
-        items = a0[1] if a0[0] in ("list", "tuple", "set") else ()
-        T, F = ("loop", lid, 0), ("loop", lid, 1)
+        items, it = forms(c)
+        if items is None:
+            continue
+        T, F = ("V", 0), ("V", 1)
         if len(items) == 2 and {key(i) for i in items} == {key(("tuple", (T, ("idx", F, (C(0),))))), key(("tuple", (T, ("idx", F, (C(1),)))))} \
-                and filt(lid, "BranchComponent") and any(x[0] == "call" and x[1][0] == "attr" and x[1][2] == "from_to_node_cols"
-                                                         for x in walk(r.loops[lid]["iter"])):
+                and filt(it, "BranchComponent") and any(x[0] == "call" and x[1][0] == "attr" and x[1][2] == "from_to_node_cols"
+                                                        for x in walk(it)):
             br_ok = True
-        if len(items) == 1 and key(items[0]) == key(("tuple", (T, C("junction")))) and filt(lid, "NodeElementComponent"):
+        if len(items) == 1 and key(items[0]) == key(("tuple", (T, C("junction")))) and filt(it, "NodeElementComponent"):
             nd_ok = True
     run.ob("branch-columns-from-class", br_ok,
            "for every BranchComponent table both columns of the class's from_to_node_cols() are listed", w)
